@@ -225,12 +225,8 @@ fn gen_pattern(rng: &mut Rng, depth: usize, ngroups: &mut usize) -> String {
     }
 }
 
-fn l2_case(rng: &mut Rng, malformed: bool) -> String {
-    let mut ng = 0;
-    let pat = gen_pattern(rng, 3, &mut ng);
-    let tmpl = gen_template(rng, malformed);
+fn gen_input(rng: &mut Rng, crlf: bool) -> Vec<u8> {
     let mut input = vec![];
-    let crlf = rng.chance(1, 4);
     let nl = rng.range(1, 4);
     for i in 0..nl {
         for _ in 0..rng.range(0, 6) {
@@ -243,14 +239,28 @@ fn l2_case(rng: &mut Rng, malformed: bool) -> String {
             input.push(b'\n');
         }
     }
+    input
+}
+
+fn l2_case(rng: &mut Rng, malformed: bool) -> String {
+    let mut ng = 0;
+    let pat = gen_pattern(rng, 3, &mut ng);
+    let tmpl = gen_template(rng, malformed);
+    let crlf = rng.chance(1, 4);
+    let input = gen_input(rng, crlf);
     let only = rng.chance(1, 4);
+    // per-match records (--vimgrep) and prelude fields (-n, --column)
+    let per_match = rng.chance(1, 4);
+    let prelude = rng.chance(1, 2);
     format!(
-        "l2 {} {} {} crlf={} o={}",
+        "l2 {} {} {} crlf={} o={} pm={} pre={}",
         hex(pat.as_bytes()),
         hex(&tmpl),
         hex(&input),
         crlf as u8,
-        only as u8
+        only as u8,
+        per_match as u8,
+        prelude as u8
     )
 }
 
@@ -260,10 +270,13 @@ struct L2 {
     input: Vec<u8>,
     crlf: bool,
     only: bool,
+    per_match: bool,
+    prelude: bool,
 }
 
 fn parse_l2(parts: &[&str]) -> Option<L2> {
-    if parts.len() != 6 {
+    // older corpus lines have no pm= / pre= fields
+    if parts.len() != 6 && parts.len() != 8 {
         return None;
     }
     Some(L2 {
@@ -272,6 +285,8 @@ fn parse_l2(parts: &[&str]) -> Option<L2> {
         input: unhex(parts[3])?,
         crlf: parts[4] == "crlf=1",
         only: parts[5] == "o=1",
+        per_match: parts.get(6).map_or(false, |p| *p == "pm=1"),
+        prelude: parts.get(7).map_or(false, |p| *p == "pre=1"),
     })
 }
 
@@ -334,6 +349,36 @@ fn caps_sx(m: &grep_regex::RegexMatcher, hay: &[u8], from: usize) -> (String, bo
     (format!("(table {})", tab.join(" ")), sane)
 }
 
+/// The prelude the printer writes before a record when -n and --column are on: `ln:col:` (no column when
+/// the record has none).
+fn prelude(on: bool, ln: usize, col: Option<usize>) -> Vec<u8> {
+    if !on {
+        return vec![];
+    }
+    match col {
+        Some(c) => format!("{}:{}:", ln, c).into_bytes(),
+        None => format!("{}:", ln).into_bytes(),
+    }
+}
+
+/// Expected records of one matching line per the property, from the regex crate: the replaced line with the
+/// start offset of every expansion in it.
+fn spec_replace(re: &regex::bytes::Regex, content: &[u8], tmpl: &[u8]) -> (Vec<u8>, Vec<(usize, usize)>) {
+    let mut dst = vec![];
+    let mut spans = vec![];
+    let mut last = 0;
+    for caps in re.captures_iter(content) {
+        let m = caps.get(0).unwrap();
+        dst.extend_from_slice(&content[last..m.start()]);
+        let s = dst.len();
+        caps.expand(tmpl, &mut dst);
+        spans.push((s, dst.len()));
+        last = m.end();
+    }
+    dst.extend_from_slice(&content[last..]);
+    (dst, spans)
+}
+
 fn run_l2(case: &str, c: &L2, drv: &mut Driver, rep: &mut Report) {
     rep.eval();
     let matcher = match RegexMatcherBuilder::new().multi_line(true).crlf(c.crlf).build(&c.pat) {
@@ -354,9 +399,11 @@ fn run_l2(case: &str, c: &L2, drv: &mut Driver, rep: &mut Report) {
     let mut printer = StandardBuilder::new()
         .replacement(Some(c.tmpl.clone()))
         .only_matching(c.only)
+        .per_match(c.per_match)
+        .column(c.prelude)
         .build_no_color(vec![]);
     let mut searcher = SearcherBuilder::new()
-        .line_number(false)
+        .line_number(c.prelude)
         .line_terminator(if c.crlf {
             grep_matcher::LineTerminator::crlf()
         } else {
@@ -383,7 +430,8 @@ fn run_l2(case: &str, c: &L2, drv: &mut Driver, rep: &mut Report) {
     let mut any_match = false;
     let mut any_nonmatch = false;
     let mut ls = 0usize;
-    for line in split_lines(&c.input) {
+    for (idx, line) in split_lines(&c.input).into_iter().enumerate() {
+        let ln = idx + 1;
         let le = ls + line.len();
         let line_start = ls;
         ls = le;
@@ -423,16 +471,17 @@ fn run_l2(case: &str, c: &L2, drv: &mut Driver, rep: &mut Report) {
             rep.violation(Violation {
                 kind: "impl_vs_model".into(),
                 class: "".into(),
-                tie: "hypothesis `Sane` of theorems iteration_eq_regex_iterator / replace_in_context_eq / C19_partial (engine contract)".into(),
+                tie: "hypothesis `Sane` of theorems iteration_eq_regex_iterator / replace_in_context_eq / C19_line (engine contract)".into(),
                 case: case.to_string(),
                 detail: format!("captures_at answers for pattern {:?} on {:?} violate the Sane contract", c.pat, show(hay)),
             });
         }
         rep.branch("l2:sane-table-checked");
         let reply = drv.ask(&format!(
-            "c19.print {} {} {} {} {} {} {} {}",
+            "c19.print {} {} {} {} {} {} {} {} {}",
             lt,
             c.only as u8,
+            c.per_match as u8,
             hex(&c.input),
             line_start,
             le,
@@ -440,26 +489,47 @@ fn run_l2(case: &str, c: &L2, drv: &mut Driver, rep: &mut Report) {
             names_sx(&names),
             table
         ));
-        model_out.extend(unhex(&reply).unwrap_or_else(|| b"<bad-op>".to_vec()));
+        for rec in reply.split(' ').filter(|r| !r.is_empty()) {
+            match rec.split_once(':') {
+                Some((col, text)) => {
+                    model_out.extend(prelude(c.prelude, ln, col.parse().ok()));
+                    model_out.extend(unhex(text).unwrap_or_else(|| b"<bad-op>".to_vec()));
+                }
+                None => model_out.extend_from_slice(b"<bad-op>"),
+            }
+        }
         // F6 (repaired): an empty match at the very end of an unterminated final line
         if term_in.is_empty() && re.find_iter(content).any(|m| m.is_empty() && m.start() == content.len()) {
             rep.branch("l2:empty-match-at-end-of-unterminated-last-line");
         }
+        // the property: each match replaced by its expansion, everything else and the terminator intact
+        // (a missing terminator is completed); -o: one record per expansion; per-match: the line once per match
+        let (dst, spans) = spec_replace(&re, content, &c.tmpl);
+        let own_term: &[u8] = if term_in.is_empty() { term_out } else { term_in };
         if c.only {
-            for caps in re.captures_iter(content) {
-                let mut x = vec![];
-                caps.expand(&c.tmpl, &mut x);
-                spec_out.extend(x);
-                spec_out.extend_from_slice(term_out);
+            for (s, e) in &spans {
+                spec_out.extend(prelude(c.prelude, ln, Some(s + 1)));
+                spec_out.extend_from_slice(&dst[*s..*e]);
+                // a record is terminated unless the expansion itself ends in the terminator byte
+                if dst[*s..*e].last() != Some(&b'\n') {
+                    spec_out.extend_from_slice(term_out);
+                }
+            }
+        } else if c.per_match {
+            for (s, _) in &spans {
+                spec_out.extend(prelude(c.prelude, ln, Some(s + 1)));
+                spec_out.extend_from_slice(&dst);
+                spec_out.extend_from_slice(own_term);
             }
         } else {
-            spec_out.extend_from_slice(&re.replace_all(content, &c.tmpl[..]));
-            // the property: the line terminator is left intact (a missing one is completed)
-            spec_out.extend_from_slice(if term_in.is_empty() { term_out } else { term_in });
+            spec_out.extend(prelude(c.prelude, ln, spans.first().map(|x| x.0 + 1)));
+            spec_out.extend_from_slice(&dst);
+            spec_out.extend_from_slice(own_term);
         }
     }
     let guard = drv.ask(&format!("c19.guard {}", hex(&c.tmpl)));
-    rep.branch(if c.only { "l2:only-matching" } else { "l2:whole-line" });
+    rep.branch(if c.only { "l2:only-matching" } else if c.per_match { "l2:per-match" } else { "l2:whole-line" });
+    rep.branch(if c.prelude { "l2:line-number+column" } else { "l2:no-prelude" });
     rep.branch(if c.crlf { "l2:crlf" } else { "l2:lf" });
     if any_match && any_nonmatch && !c.tmpl.is_empty() {
         rep.nontrivial(case);
@@ -468,7 +538,7 @@ fn run_l2(case: &str, c: &L2, drv: &mut Driver, rep: &mut Report) {
         rep.violation(Violation {
             kind: "impl_vs_model".into(),
             class: "".into(),
-            tie: "Standard printer with replacement vs Model.Replace.replaceAllLine (theorem replaceAll_eq_spec)".into(),
+            tie: "Standard printer with replacement vs Model.Replace.replaceAllLine/printRecords (theorems replace_in_context_eq, C19_line)".into(),
             case: case.to_string(),
             detail: format!(
                 "pattern {:?} template {:?} input {:?}: impl {:?} model {:?}",
@@ -481,11 +551,7 @@ fn run_l2(case: &str, c: &L2, drv: &mut Driver, rep: &mut Report) {
         });
     }
     if out != spec_out {
-        let class = if guard == "0" {
-            "braced-name-outside-capletters"
-        } else {
-            ""
-        };
+        let class = if guard == "0" { "braced-name-outside-capletters" } else { "" };
         rep.violation(Violation {
             kind: "impl_vs_spec".into(),
             class: class.into(),
@@ -496,6 +562,210 @@ fn run_l2(case: &str, c: &L2, drv: &mut Driver, rep: &mut Report) {
                 c.pat,
                 show(&c.tmpl),
                 show(&c.input),
+                show(&out),
+                show(&spec_out)
+            ),
+        });
+    }
+}
+
+// ---------------------------------------------------------------- L3: multi-line (-U), implementation vs spec
+
+fn gen_ml_pattern(rng: &mut Rng) -> String {
+    // pieces that can span a terminator, mixed with ordinary ones and empty-matching alternatives
+    let pieces = ["a", "b", "c", "\\n", "\\n?", "(b)", "(?P<x>a)", "[ab]", "\\s", "(?:a\\nb)", "^", "$", " ", "(\\n)", "q"];
+    let n = rng.range(1, 4);
+    let mut p = String::new();
+    for _ in 0..n {
+        p.push_str(*rng.pick(&pieces[..]));
+    }
+    if rng.chance(1, 4) {
+        p = format!("{}|{}", p, *rng.pick(&["^", "b\\nc", "(a)", "\\n\\n"][..]));
+    }
+    p
+}
+
+fn l3_case(rng: &mut Rng, malformed: bool) -> String {
+    let pat = gen_ml_pattern(rng);
+    let tmpl = gen_template(rng, malformed);
+    let crlf = rng.chance(1, 4);
+    let mut input = gen_input(rng, crlf);
+    if rng.chance(1, 2) {
+        input.extend(gen_input(rng, crlf));
+    }
+    format!("l3 {} {} {} crlf={} pre={}", hex(pat.as_bytes()), hex(&tmpl), hex(&input), crlf as u8, rng.chance(1, 2) as u8)
+}
+
+/// C19 under -U: the printed blocks are the lines covered by the matches, with each match replaced.
+/// Implementation vs the regex crate only (the multi-line branch of `replace_all` is not modelled in Lean).
+fn run_l3(case: &str, parts: &[&str], drv: &mut Driver, rep: &mut Report) {
+    if parts.len() != 6 {
+        rep.notes.push(format!("unparsable case: {}", case));
+        return;
+    }
+    let (pat, tmpl, input) = match (
+        unhex(parts[1]).and_then(|b| String::from_utf8(b).ok()),
+        unhex(parts[2]),
+        unhex(parts[3]),
+    ) {
+        (Some(p), Some(t), Some(i)) => (p, t, i),
+        _ => {
+            rep.notes.push(format!("unparsable case: {}", case));
+            return;
+        }
+    };
+    let crlf = parts[4] == "crlf=1";
+    let pre = parts[5] == "pre=1";
+    rep.eval();
+    // as `rg -U [--crlf]` builds it (hiargs.rs): CRLF-aware anchors but no line terminator on the matcher
+    let matcher = match RegexMatcherBuilder::new().multi_line(true).crlf(crlf).line_terminator(None).build(&pat) {
+        Ok(m) => m,
+        Err(_) => {
+            rep.branch("l3:pattern-rejected");
+            return;
+        }
+    };
+    let re = match regex::bytes::RegexBuilder::new(&pat).multi_line(true).crlf(crlf).build() {
+        Ok(r) => r,
+        Err(_) => {
+            rep.branch("l3:regex-rejected");
+            return;
+        }
+    };
+    let mut printer = StandardBuilder::new().replacement(Some(tmpl.clone())).build_no_color(vec![]);
+    let mut searcher = SearcherBuilder::new()
+        .multi_line(true)
+        .line_number(pre)
+        .line_terminator(if crlf {
+            grep_matcher::LineTerminator::crlf()
+        } else {
+            grep_matcher::LineTerminator::byte(b'\n')
+        })
+        .build();
+    if searcher.search_slice(&matcher, &input, printer.sink(&matcher)).is_err() {
+        rep.branch("l3:search-error");
+        return;
+    }
+    let out = printer.into_inner().into_inner();
+    // spec: successive matches over the whole input; blocks = covered lines, touching blocks merged
+    let line_start = |p: usize| input[..p].iter().rposition(|&b| b == b'\n').map_or(0, |i| i + 1);
+    let line_end = |p: usize| {
+        // end of the line containing position p (p may be the position just after a match)
+        input[p..].iter().position(|&b| b == b'\n').map_or(input.len(), |i| p + i + 1)
+    };
+    let mut ms: Vec<regex::bytes::Captures> = vec![];
+    for caps in re.captures_iter(&input) {
+        let m = caps.get(0).unwrap();
+        // the position behind the final terminator is not on any line
+        if m.is_empty() && m.start() == input.len() && input.last() == Some(&b'\n') {
+            continue;
+        }
+        if m.is_empty() && input.is_empty() {
+            continue;
+        }
+        ms.push(caps);
+    }
+    let mut blocks: Vec<(usize, usize, Vec<usize>)> = vec![]; // start, end, match indices
+    for (i, caps) in ms.iter().enumerate() {
+        let m = caps.get(0).unwrap();
+        let s = line_start(m.start());
+        let e = if m.end() > m.start() { line_end(m.end() - 1) } else { line_end(m.start()) };
+        match blocks.last_mut() {
+            Some(b) if b.1 >= s => {
+                b.1 = b.1.max(e);
+                b.2.push(i);
+            }
+            _ => blocks.push((s, e, vec![i])),
+        }
+    }
+    let term_out: &[u8] = if crlf { b"\r\n" } else { b"\n" };
+    let mut spec_out = vec![];
+    let mut lookahead_sensitive = false;
+    for (s, e, idxs) in &blocks {
+        let mut dst = vec![];
+        let mut last = *s;
+        for &i in idxs {
+            let m = ms[i].get(0).unwrap();
+            if m.end() > *e {
+                lookahead_sensitive = true;
+            }
+            dst.extend_from_slice(&input[last..m.start()]);
+            ms[i].expand(&tmpl, &mut dst);
+            last = m.end();
+        }
+        dst.extend_from_slice(&input[last.min(*e)..*e]);
+        // printed line by line with the number of the line of the ORIGINAL block it replaces (n, n+1, …)
+        let first_ln = input[..*s].iter().filter(|&&b| b == b'\n').count() + 1;
+        let mut k = 0;
+        let mut p = 0;
+        while p < dst.len() {
+            let q = dst[p..].iter().position(|&b| b == b'\n').map_or(dst.len(), |i| p + i + 1);
+            if pre {
+                spec_out.extend(format!("{}:", first_ln + k).into_bytes());
+            }
+            spec_out.extend_from_slice(&dst[p..q]);
+            if dst[p..q].last() != Some(&b'\n') {
+                spec_out.extend_from_slice(term_out);
+            }
+            k += 1;
+            p = q;
+        }
+        // a block whose every byte (terminator included) was matched and replaced by nothing prints nothing
+    }
+    let guard = drv.ask(&format!("c19.guard {}", hex(&tmpl)));
+    // The searcher's own iteration (find_at from the previous end, +1 after an empty match) accepts an empty
+    // match that starts exactly where the previous match ended; the regex iterator (and the printer's
+    // replace loop) skips it. Detect that situation: it is a recorded finding (F32), not a new violation.
+    let mut empty_after_match = false;
+    {
+        let (mut pos, mut last_end) = (0usize, None);
+        while pos <= input.len() {
+            match re.find_at(&input, pos) {
+                None => break,
+                Some(m) => {
+                    if m.is_empty() && Some(m.start()) == last_end && m.start() < input.len() {
+                        empty_after_match = true;
+                    }
+                    last_end = Some(m.end());
+                    pos = if m.is_empty() { m.end() + 1 } else { m.end() };
+                }
+            }
+        }
+    }
+    rep.branch(if crlf { "l3:crlf" } else { "l3:lf" });
+    if blocks.iter().any(|b| input[b.0..b.1].iter().filter(|&&x| x == b'\n').count() > 1) {
+        rep.branch("l3:block-spans-lines");
+        rep.nontrivial(case);
+    }
+    if out != spec_out {
+        // what the property leaves open in multi-line mode (stated in the rule): blocks whose replaced text
+        // changes the number of lines (line numbers of later lines of the block), and CRLF blocks (F19 family)
+        let class = if guard == "0" {
+            "braced-name-outside-capletters"
+        } else if lookahead_sensitive {
+            "multiline-match-beyond-block"
+        } else if empty_after_match {
+            "multiline-empty-match-directly-after-a-match"
+        } else if crlf
+            && (spec_out.iter().enumerate().any(|(i, &b)| b == b'\n' && (i == 0 || spec_out[i - 1] != b'\r'))
+                || blocks.iter().any(|b| input[b.0..b.1].last() != Some(&b'\n')))
+        {
+            // F19 family (also a C09 class): under --crlf -U the slow multi-line printer writes each block line
+            // without its terminator and appends the configured CRLF
+            "crlf-multiline-bare-lf-terminator-rewritten"
+        } else {
+            ""
+        };
+        rep.violation(Violation {
+            kind: "impl_vs_spec".into(),
+            class: class.into(),
+            tie: "rg -U -r output vs regex replace_all over the lines covered by the matches".into(),
+            case: case.to_string(),
+            detail: format!(
+                "pattern {:?} template {:?} input {:?}: ripgrep prints {:?}, replace-all of the covered lines gives {:?}",
+                pat,
+                show(&tmpl),
+                show(&input),
                 show(&out),
                 show(&spec_out)
             ),
@@ -514,6 +784,7 @@ fn run_case(case: &str, drv: &mut Driver, rep: &mut Report) {
             Some(c) => run_l2(case, &c, drv, rep),
             None => rep.notes.push(format!("unparsable case: {}", case)),
         },
+        Some("l3") => run_l3(case, &parts, drv, rep),
         _ => rep.notes.push(format!("unparsable case: {}", case)),
     }
 }
@@ -536,7 +807,11 @@ fn main() {
         let n = args.cases.unwrap_or(if args.thorough { 60000 } else { 4000 });
         for i in 0..n {
             let malformed = i % 10 == 9;
-            let case = if i % 2 == 0 { l1_case(&mut rng, malformed) } else { l2_case(&mut rng, malformed) };
+            let case = match i % 5 {
+                0 | 2 => l1_case(&mut rng, malformed),
+                1 | 3 => l2_case(&mut rng, malformed),
+                _ => l3_case(&mut rng, malformed),
+            };
             if i < 6 {
                 rep.sample(case.clone());
             }
